@@ -310,6 +310,7 @@ def main():
     summaries = []
     total_cands = 0
     skipped = [0]
+    ok_lines = [0]
     for variant in variants:
         if violations or infra:
             break
@@ -368,6 +369,7 @@ def main():
                         last_start = int(line.split()[1])
                     elif line.startswith('OK '):
                         oks += 1
+                        ok_lines[0] += 1
                     elif line.startswith('VIOL '):
                         viol_line = line
                     elif line.startswith('NONDET '):
@@ -443,6 +445,7 @@ def main():
     merged = {'evaluations': 0, 'nontrivial': 0, 'probes': {}, 'faults_fired': {}, 'policies': {}, 'file_faults_fired': {}, 'steps': 0, 'switches': 0,
               'sim_us': 0, 'lock_contended': 0, 'overlap3': 0, 'max_tasks': 0, 'api_calls': 0, 'wire_msgs': 0, 'uplink_frames': 0, 'decision_points': 0, 'twice_checked': 0}
     distinct = set()
+    shapes = set()
     samples = []
     edges = {}
     reach = {}
@@ -462,6 +465,7 @@ def main():
             for kk, vv in s.get(k, {}).items():
                 merged[k][kk] = merged[k].get(kk, 0) + vv
         distinct.update(s.get('distinct_hashes', []))
+        shapes.update(s.get('distinct_shapes', []))
         if len(samples) < 3:
             samples.extend(s.get('samples', [])[:1])
         for e in s.get('lock_order_edges', []):
@@ -548,8 +552,10 @@ def main():
     ev = {
         'property_id': prop, 'tier': tier, 'seed': seed_base, 'level': 'exploration',
         'coverage': {
-            'evaluations': max(merged['evaluations'], 0),
+            'evaluations': max(merged['evaluations'], ok_lines[0] + len(violations) + len(reg_results)),
             'distinct_nontrivial': len(distinct),
+            'distinct_plan_shapes_among_nontrivial': len(shapes),
+            'distinct_measure': 'distinct_nontrivial counts distinct (plan-shape hash, 64-bit trace hash over all scheduling decisions, wire bytes and oracle-visible results) pairs among the runs that satisfy the interest predicate in rule; distinct_plan_shapes_among_nontrivial counts the plan shapes alone (operation kinds and counts, not argument values or schedules)',
             'rule': rule,
             'samples': samples[:3] if samples else [{'note': 'no non-trivial run recorded'}],
             'runs_per_variant': per_variant,
